@@ -148,6 +148,61 @@ theorem c04_watcher_stored_is_live (n n' : Net) (es : List NEvent) (h0 : n.b.fou
   obtain ⟨esB, hB⟩ := c04_side_b_run n n' es h hc
   exact c05_stored_is_within_ttl n.b n'.b esB h0 hl htm hr hB a k q hheld
 
+/-- THE SCHEDULES INTERLOCK (the arithmetic of the convergence bound, on the two real state machines).  In ANY composed
+execution without a crash: let side A's instance be in its cyclic phase with period P and side B hold the service with an
+expiry handle armed by an offer of TTL ttl.  IF B's most recent accepted offer arrived no earlier than A's most recent multicast offer was handed to the sender (it is
+that offer or a later one: the network delivered it - the one assumption about the network, `hlink`) and P < ttl, THEN the step of A's
+offer task that sends the next offer is due strictly before B's expiry handle: B's entry cannot expire before A's next
+offer leaves.  Together with "an offer that is not ignored is stored and re-arms the handle" (`c05_watched_offer_is_stored`,
+`c09_deadline_is_last_refresh_plus_ttl`) and "nothing but a datagram, its own expiry or connection loss removes an entry"
+(`c05_store_changes_only_by`): while offers are delivered, a watcher that has learnt the service never loses it; when
+they stop coming, the entry goes exactly one TTL after the last one (`c09_expiry_exactly_ttl_after_last_refresh`). -/
+theorem c04_next_offer_precedes_expiry (n n' : Net) (es : List NEvent) (hA0 : FreshTime n.a)
+    (hB0 : n.b.found = []) (hBl : n.b.storeLog = []) (hBt : n.b.loop.timers = []) (hBr : ∀ r ∈ n.b.loop.ready, isSvcExpiry r.cb = false)
+    (h : netRunAll n es = some n') (hcA : ∀ e ∈ es, isCrashA e = false) (hcB : ∀ e ∈ es, isCrashB e = false)
+    (i k : Nat) (x : Instance) (hx : n'.a.getInst i = some x) (hn : x.task = some k)
+    (t : TaskSt) (ht : n'.a.getTask (.offer i, k) = some t) (hpc : t.pc = .cyclic)
+    (a : Addr) (key : SvcKey) (q : Nat) (hheld : Stack.held n'.b a key = some q)
+    (y : Timer Cb) (hy : y ∈ n'.b.loop.timers) (hyq : y.seq = q) (hycb : y.cb = .expiredSvc a key)
+    (T ttl : Nat) (hlast : lastRefresh n'.b.refreshLog a key = some (T, ttl))
+    (A0 : Nat) (hanchor : anchor i n'.a.offLog = some A0) (hlink : A0 ≤ T)
+    (httl : n'.a.tm.cyclicOfferDelay < ttl * TICKS_PER_S) :
+    ∃ due, Sch n'.a.tm .cyclic A0 due ∧ n'.a.loop.now ≤ due ∧ due < y.deadline := by
+  obtain ⟨A, hA, hfresh⟩ := c04_offerer_last_offer_is_fresh n n' es hA0 h hcA i k x hx hn t ht hpc
+  rw [hanchor] at hA
+  cases hA
+  have hlive := c04_watcher_stored_is_live n n' es hB0 hBl hBt hBr h hcB a key q hheld
+  have hdead : y.deadline = T + ttl * TICKS_PER_S := by
+    obtain ⟨esB, hB⟩ := c04_side_b_run n n' es h hcB
+    have := c09_deadline_is_last_refresh_plus_ttl n.b n'.b esB hB0 hBl hBt hBr hB y hy a key hycb
+    obtain ⟨T', ttl', h1, h2⟩ := this
+    rw [hlast] at h1
+    cases h1
+    exact h2
+  refine ⟨A0 + n'.a.tm.cyclicOfferDelay, rfl, hfresh, ?_⟩
+  rw [hdead]
+  omega
+
+/-- non-vacuity of `c04_next_offer_precedes_expiry`: a composed run - A (the stack of C10Time: initial wait 10, two
+repetitions, period 1000, collection window 5) starts and offers, the network delivers the three offer datagrams, the clock
+moves on to 600 - ends in a state that meets every premise: A's instance in its cyclic phase with anchor 100, B holding the
+service under handle 2 with deadline 3105 = 105 + 3 s, B's last accepted offer at 105 >= 100, period 1000 < 3000 -/
+def netT : Net := { a := stackT, b := { watchAll := [0] } }
+def evsNet : List NEvent :=
+  evsT.map (fun e => match e with | .adv t => NEvent.adv t | e => NEvent.sideA e) ++
+    [.deliver 0, .deliver 0, .adv 105, .sideA (.fire 6), .sideA .run, .deliver 0, .adv 600]
+example :
+    (netRunAll netT evsNet).map (fun n =>
+      (n.a.loop.now, anchor 0 n.a.offLog, (n.a.getTask (.offer 0, 0)).map (·.pc), (n.a.getInst 0).map (·.task),
+       n.a.tm.cyclicOfferDelay)) = some (600, some 100, some .cyclic, some (some 0), 1000) := by
+  decide +kernel
+example :
+    (netRunAll netT evsNet).map (fun n =>
+      (Stack.held n.b 1 ⟨4369, 1, 1, 1⟩, lastRefresh n.b.refreshLog 1 ⟨4369, 1, 1, 1⟩,
+       n.b.loop.timers.map (fun t => (t.seq, t.deadline)))) = some (some 2, some (105, 3), [(2, 3105)]) := by
+  decide +kernel
+example : (∀ e ∈ evsNet, isCrashA e = false) ∧ (∀ e ∈ evsNet, isCrashB e = false) := by decide +kernel
+
 /-- the SUBSCRIBER (side B) in any composed execution: while it runs with refresh interval r, the clock is never more than r
 past its most recent refresh round -/
 theorem c04_subscriber_refresh_on_time (n n' : Net) (es : List NEvent) (h0 : Fresh n.b) (h : netRunAll n es = some n')
@@ -155,5 +210,28 @@ theorem c04_subscriber_refresh_on_time (n n' : Net) (es : List NEvent) (h0 : Fre
     ∃ T, lastMark n'.b = some T ∧ n'.b.loop.now ≤ T + r := by
   obtain ⟨esB, hB⟩ := c04_side_b_run n n' es h hc
   exact c14_refresh_gap n.b n'.b esB h0 hB ha r hr
+
+/-- THE SCHEDULES INTERLOCK, subscription half.  In any composed execution without a crash: let the subscriber (side B) run
+with refresh interval r and the server (side A) hold a subscription of it with an expiry handle armed by a Subscribe of TTL
+ttl.  IF the Subscribe A stored last arrived no earlier than B's most recent refresh round was sent (the network delivered
+that round, `hlink`) and r < ttl, THEN B's next refresh round is due strictly before A's expiry handle: an acknowledged
+subscription cannot expire at the server before the subscriber's next Subscribe leaves. -/
+theorem c04_next_refresh_precedes_sub_expiry (n n' : Net) (es : List NEvent) (hB0 : Fresh n.b)
+    (hAo : n.a.outs = []) (hAs : ∀ x ∈ n.a.instances, x.subs = []) (hAt : n.a.loop.timers = [])
+    (hAr : ∀ r ∈ n.a.loop.ready, isSubExpiry r.cb = false)
+    (h : netRunAll n es = some n') (hcA : ∀ e ∈ es, isCrashA e = false) (hcB : ∀ e ∈ es, isCrashB e = false)
+    (ha : n'.b.alive = true) (r : Nat) (hr : n'.b.tm.subscribeRefresh = some r)
+    (y : Timer Cb) (hy : y ∈ n'.a.loop.timers) (i : Nat) (a : Addr) (k : SubKey) (hycb : y.cb = .expiredSub i a k)
+    (T ttl : Nat) (hlast : lastArm n'.a.armLog (isSubExpiryFor i a k) = some (T, ttl))
+    (M : Nat) (hmark : lastMark n'.b = some M) (hlink : M ≤ T) (httl : r < ttl * TICKS_PER_S) :
+    n'.b.loop.now ≤ M + r ∧ M + r < y.deadline := by
+  obtain ⟨T', hT', hgap⟩ := c04_subscriber_refresh_on_time n n' es hB0 h hcB ha r hr
+  rw [hmark] at hT'
+  cases hT'
+  obtain ⟨esA, hA⟩ := c04_side_a_run n n' es h hcA
+  obtain ⟨T2, ttl2, h1, h2⟩ := c09_sub_deadline_is_last_subscribe_plus_ttl n.a n'.a esA hAo hAs hAt hAr hA y hy i a k hycb
+  rw [hlast] at h1
+  cases h1
+  exact ⟨hgap, by rw [h2]; omega⟩
 
 end Someip
